@@ -109,6 +109,7 @@ type FuncChoice struct {
 type Opaque struct {
 	Typ types.Type
 	Why string
+	ID  string // identity term (sort Ref) when the value came from a symbolic source
 }
 
 // Table is a package-level table dumped from the real init code.
